@@ -1038,7 +1038,9 @@ class StrategyBase(Node):
             c.flatten()
 
         if self.fixed_income:
-            if c.position != 0.0:
+            # (a sub-strategy has no position of its own: its children were
+            # flattened above)
+            if c._issec and c.position != 0.0:
                 c.transact(-c.position, update=update)
         else:
             if c.value != 0.0 and not np.isnan(c.value):
